@@ -498,7 +498,12 @@ class Abstractor:
                 return False
             ok = True
             for e in j.get("manifests") or []:
-                ok = ok and complete(e.get("digest", ""), depth + 1)
+                mt = e.get("mediaType", "")
+                if mt and "manifest" not in mt and "image.index" not in mt:
+                    # an index entry that is a blob, not a manifest (buildkit cache export: layers + cache config)
+                    ok = ok and bool(present.get(e.get("digest", "")))
+                else:
+                    ok = ok and complete(e.get("digest", ""), depth + 1)
             cfg = j.get("config")
             if isinstance(cfg, dict) and cfg.get("digest"):
                 ok = ok and bool(present.get(cfg["digest"]))
@@ -543,7 +548,7 @@ class Abstractor:
 # scenarios: start state x operation, and what each operation intends (input to (P))
 # ----------------------------------------------------------------------------------------------
 
-SRC_TAGS = {"m1": "M1", "m2": "M2", "m3": "M3", "ix": "IX"}
+SRC_TAGS = {"m1": "M1", "m2": "M2", "m3": "M3", "ix": "IX", "ib": "IB", "in": "IN"}
 TARS = {"m2": "M2", "m3r": "M3", "ix": "IX"}
 SRC_REFERRERS = {"M1": ["A1"]}          # referrers present in the source layout (mksrc)
 
@@ -590,10 +595,15 @@ SCENARIOS = [
     ("P1", "import:v2:m2+gc~rel"), ("PR", "man_delete:A1+gc~rel"), ("P1", "put_tag:v2:M2~td"),
     # digest algorithm: sha512 blob (new directory blobs/sha512) and a tagged manifest stored under its sha512 digest
     ("P1", "blob_put:L3:s512"), ("E", "blob_put:L4:s512"), ("P1", "put_tag:v2:M2+gc~s512"),
+    # shape of the stored content: PB holds a tag on a cache-export index (its entries are layer blobs plus a cache
+    # config blob, not manifests) and a tag on an index nested in an index; every operation followed by the GC
+    ("PB", "put_tag:v2:M2+gc"), ("PB", "tag_delete:v1+gc"), ("PB", "man_delete:IB+gc"), ("PB", "blob_put:L3"),
+    ("PB", "tag_delete:cache+gc"), ("PB", "retag:c2:cache+gc"), ("PB", "tag_delete:nest+gc"),
+    ("E", "copy:cache:ib+gc"), ("P1", "copy:cache:ib+gc"), ("E", "copy:nest:in+gc"), ("PB", "import:v3:m3r+gc"),
 ]
 NOT_IN_D = ("s512",)          # (D) has one abstract blobs/<alg> directory: the sha512 recordings are not matched against it
 EXPECT_FAIL = ("blob_bad", "man_bad")
-STATES = ["E", "E0", "P1", "P2", "PX", "PR", "PR2", "PT"]
+STATES = ["E", "E0", "P1", "P2", "PX", "PR", "PR2", "PT", "PB"]
 
 
 def fallback_tag(ab, subj):
@@ -1114,7 +1124,7 @@ def run(ctx):
     if not ctx.replay:
         # baseline of (D) = the code since 5457c02 (MarkerMode = ifbad): must hold with crashes anywhere
         mc.append(ctx.tlc("LayoutFSMC", "C07_mc_quick.cfg", timeout=900,
-                          label="baseline (marker written only when missing/unreadable): 70 scenarios, crash anywhere + retry"))
+                          label="baseline (marker written only when missing/unreadable): 80 scenarios, crash anywhere + retry"))
         rc_ = ctx.tlc("LayoutFSMC", "C07_mc_refcopyq.cfg", allow_violation=True, timeout=900,
                       label="image copy with referrers (counterexample expected: interrupted referrer copy not repaired)")
         mc.append(rc_)
@@ -1237,7 +1247,7 @@ def run(ctx):
     # the two copies of a two-image index (9 goroutines) cost ~40 s each to match: thorough only, one recording each
     nbase = len(SCENARIOS)
     dts = [d for i, d in enumerate(dts)
-           if not (d["header"]["kind"] in CONCURRENT and d["header"]["o"] == "IX") or (thorough and i < nbase)]
+           if not (d["header"]["kind"] in CONCURRENT and d["header"]["o"] in ("IX", "IN")) or (thorough and i < nbase)]
     dts = [d for d in dts if not any(x in byid[d["id"]].op for x in NOT_IN_D)]
     done, drift = validate_dtraces(ctx, dts, "ifbad", "dtrace")
     cov["design_traces_matched"] = len(done)
